@@ -171,3 +171,7 @@ func VH_C19_singleStep_interrupt() {
 	}
 	vhReach("end")
 }
+
+// the stop rule compares call depths: the depth bookkeeping of frames is part of it (shared with C06)
+func VH_C19_callDepth_onCall()   { VH_C06_allocate() }
+func VH_C19_callDepth_onReturn() { VH_C06_free() }
